@@ -378,6 +378,33 @@ class Mod:
         return "<mod %s %s %s>" % (self.what, self.ev.where(), sorted(self.roots))
 
 
+_FIELD_CACHE = {}
+
+
+def _ctor_field_values(interp, ev, attr):
+    """Values a class's own __init__ stores into self.<attr> (all alternatives), for resolving `self.<attr>(...)` calls."""
+    fi = ev.fi
+    cls = getattr(fi, "cls", None)
+    if cls is None:
+        return []
+    key = (id(interp.prog), cls.fq if hasattr(cls, "fq") else id(cls))
+    if key not in _FIELD_CACHE:
+        vals = {}
+        try:
+            init = interp.prog.lookup_method(cls, "__init__")
+            if init is not None and getattr(init, "node", None) is not None:
+                from .symex import Interp as _I
+                I0 = _I(interp.prog, max_depth=1)
+                I0.run(init)
+                for e in I0.events:
+                    if e.kind == "store_attr" and e["base"] == tm.param("self") and not e.stack:
+                        vals.setdefault(e["attr"], []).extend(tm.alts(e["value"]))
+        except Exception:
+            vals = {}
+        _FIELD_CACHE[key] = vals
+    return list(_FIELD_CACHE[key].get(attr, []))
+
+
 def mods(interp, ctx=None):
     """Every event that may write storage: element stores, attribute rebinds, deletions,
     in-place augmented assignment on arrays, mutating methods / functions, out= arguments."""
@@ -417,9 +444,22 @@ def mods(interp, ctx=None):
                 c = dict(ev["kwargs"]).get("copy")
                 if c is not None and not tm.is_const(c, True):
                     out.append(Mod(ev, ev["args"][0], roots(ev["args"][0], ctx), "nan_to_num(copy=False)"))
-            for kname, v in ev["kwargs"]:
+            kws = list(ev["kwargs"])
+            # functools.partial(g, **kw)(...) is g(..., **kw): the frozen keywords count
+            f_alts = list(tm.alts(ev["f"]))
+            # self.<field>(...) where the constructor stored a callable in <field>: look at what was stored
+            f0 = ev["f"]
+            if f0.op == "attr" and f0.args[0] == tm.param("self"):
+                f_alts += _ctor_field_values(interp, ev, f0.args[1])
+            for f_alt in f_alts:
+                if f_alt.op == "call" and tm.callee_name(f_alt) == "functools.partial":
+                    kws += list(f_alt.args[2]) if len(f_alt.args) > 2 else []
+            for kname, v in kws:
                 if kname == "out" and v != tm.NONE:
                     out.append(Mod(ev, v, roots(v, ctx), "out= argument of %s" % nm))
+                if kname in ("overwrite_input",) and not tm.is_const(v, False) and v != tm.NONE and ev["args"]:
+                    # numpy.quantile / percentile / median / nanquantile ...: the input array is partitioned in place
+                    out.append(Mod(ev, ev["args"][0], roots(ev["args"][0], ctx), "overwrite_input= argument of %s" % (nm or "a partial")))
             if nm == "builtins.dict.__init__" and ev["args"]:
                 pass
     ctx.at = None
